@@ -47,7 +47,8 @@ VARIABLES
   cfg,       \* [defer: Nat (seconds, 0 = no deferral), addpath: BOOLEAN]
   up,        \* up[p], p \in {"N1","N2","CE"}: session established
   ceOn,      \* the CE neighbour is configured (attached to VRF v1)
-  nin,       \* set of [rd, x, label, rts, v]: VPN routes N2 has announced and not withdrawn
+  nin,       \* set of [src, rd, x, label, rts, v, lp]: VPN routes the PE neighbours N2 / N3 have
+             \* announced and not withdrawn (lp = LOCAL_PREF sent by the iBGP neighbour N3, 0 = none)
   cein,      \* set of [x, v]: routes the CE has announced and not withdrawn
   loc,       \* set of [vrf, x, v]: routes injected into a VRF through the API
   vrfs,      \* set of VRF records (unique names)
@@ -59,7 +60,8 @@ VARIABLES
 
 pvars == <<cfg, up, ceOn, nin, cein, loc, vrfs, mem, wait, eor, deadline, now>>
 
-PeerNames == {"N1", "N2", "CE"}
+PeerNames == {"N1", "N2", "N3", "CE"}
+PEs == {"N2", "N3"}       \* sources of VPN routes: N2 (eBGP), N3 (iBGP, sends LOCAL_PREF)
 CeVrf == "v1"
 
 PInit(c) == /\ cfg = c
@@ -75,12 +77,24 @@ V(n)      == CHOOSE w \in vrfs : w.name = n
 
 FromVrf(w, x, v, src) == [rd |-> w.rd, x |-> x, label |-> w.label, rts |-> w.exp, v |-> v, src |-> src]
 
-VpnRoutes ==
-  {[rd |-> r.rd, x |-> r.x, label |-> r.label, rts |-> r.rts, v |-> r.v, src |-> "N2"] : r \in nin}
+(* every path of the global VPN table.  A route originated in a VRF (src CE / local) exists exactly
+   while its VRF (and, for CE routes, the CE neighbour) exists: it lives and dies with the VRF,
+   whatever other paths the same VPN NLRI has. *)
+VpnPaths ==
+  {[rd |-> r.rd, x |-> r.x, label |-> r.label, rts |-> r.rts, v |-> r.v, src |-> r.src] : r \in nin}
   \cup {FromVrf(V(CeVrf), c.x, c.v, "CE") : c \in {d \in cein : HasVrf(CeVrf)}}
   \cup {FromVrf(V(l.vrf), l.x, l.v, "local") : l \in {m \in loc : HasVrf(m.vrf)}}
 
 Key(r)  == <<r.rd, r.x>>
+
+(* Several paths of one VPN NLRI (a PE announcing the RD + prefix a local VRF originates): the
+   decision process as far as this vocabulary varies it (C03): higher LOCAL_PREF (default 100; only
+   the iBGP neighbour N3 sends one), then locally originated before learned.  LOCAL_PREF values
+   are chosen so that no further tie exists. *)
+Lp(r) == IF r.src = "N3" THEN (CHOOSE q \in nin : q.src = "N3" /\ <<q.rd, q.x>> = Key(r)).lp ELSE 100
+Better(a, b) == Lp(a) > Lp(b) \/ (Lp(a) = Lp(b) /\ a.src = "local" /\ b.src # "local")
+(* the best path of every VPN NLRI: what is advertised *)
+VpnRoutes == {r \in VpnPaths : \A q \in VpnPaths : (Key(q) = Key(r) /\ q # r) => Better(r, q)}
 Wire(r) == [rd |-> r.rd, x |-> r.x, label |-> r.label, rts |-> r.rts, v |-> r.v]
 
 (* RFC 4364 4.3.5 / property text: imported iff one of the route's (transitive) targets is in
@@ -88,7 +102,7 @@ Wire(r) == [rd |-> r.rd, x |-> r.x, label |-> r.label, rts |-> r.rts, v |-> r.v]
 Imports(w, r) == r.rts \cap w.imp # {}
 
 VrfVisible(n) == {[rd |-> r.rd, x |-> r.x, v |-> r.v, src |-> r.src] :
-                     r \in {q \in VpnRoutes : Imports(V(n), q)}}
+                     r \in {q \in VpnPaths : Imports(V(n), q)}}
 
 (* told to the CE as plain routes; never back to the neighbour the route came from *)
 CeExport == {[x |-> r.x, v |-> r.v] : r \in {q \in VpnRoutes : q.src # "CE" /\ Imports(V(CeVrf), q)}}
@@ -101,37 +115,42 @@ CeSound(W)    == W \subseteq CeExport /\ \A e, f \in W : e.x = f.x => e = f
 CeComplete(W) == {c.x : c \in CeExport} \subseteq {e.x : e \in W}
 CeOk(W)       == CeSound(W) /\ CeComplete(W)
 
-VrfOriginatedExport == {r \in VpnRoutes : r.src \in {"CE", "local"}}
+VrfOriginatedExport == {r \in VpnPaths : r.src \in {"CE", "local"}}
+LearnedPaths == {r \in VpnPaths : r.src \in PEs}
 
 (* RFC 4684 6 / property text *)
 InterestedIn(M, r) == \E m \in M : m.rt = "def" \/ m.rt \in r.rts
 Interested(r)      == InterestedIn(mem, r)
-RtcExport(p) == {Wire(r) : r \in {q \in VpnRoutes : q.src # p /\ Interested(q)}}
-AllExport(p) == {Wire(r) : r \in {q \in VpnRoutes : q.src # p}}
+(* never back to the neighbour a route came from; a route learned from an internal neighbour is
+   not passed to another internal neighbour (RFC 4271 9.2; no route reflection here) *)
+Internal == {"N1", "N3"}
+MayAdv(p, r) == r.src # p /\ ~(p \in Internal /\ r.src \in Internal)
+RtcExport(p) == {Wire(r) : r \in {q \in VpnRoutes : MayAdv(p, q) /\ Interested(q)}}
+AllExport(p) == {Wire(r) : r \in {q \in VpnRoutes : MayAdv(p, q)}}
 
 Waiting == up["N1"] /\ wait
 
 ---------------------------------------------------------------------------
 (* inputs.  Each operator is the effect of one event on the relations. *)
 
-KeyOfN(r) == <<r.rd, r.x>>
+KeyOfN(r) == <<r.src, r.rd, r.x>>
 
 PUp(p) ==
-  /\ p \in {"N1", "N2"} /\ ~up[p]
+  /\ p \in {"N1", "N2", "N3"} /\ ~up[p]
   /\ up' = [up EXCEPT ![p] = TRUE]
   /\ IF p = "N1"
      THEN /\ mem' = {} /\ eor' = FALSE
           /\ wait' = (cfg.defer > 0) /\ deadline' = now + 1000 * cfg.defer
           /\ UNCHANGED nin
-     ELSE /\ nin' = {} /\ UNCHANGED <<mem, eor, wait, deadline>>
+     ELSE /\ nin' = {q \in nin : q.src # p} /\ UNCHANGED <<mem, eor, wait, deadline>>
   /\ UNCHANGED <<cfg, ceOn, cein, loc, vrfs, now>>
 
 PDown(p) ==
-  /\ p \in {"N1", "N2"} /\ up[p]
+  /\ p \in {"N1", "N2", "N3"} /\ up[p]
   /\ up' = [up EXCEPT ![p] = FALSE]
   /\ IF p = "N1"
      THEN mem' = {} /\ wait' = FALSE /\ eor' = FALSE /\ UNCHANGED nin
-     ELSE nin' = {} /\ UNCHANGED <<mem, wait, eor>>
+     ELSE nin' = {q \in nin : q.src # p} /\ UNCHANGED <<mem, wait, eor>>
   /\ UNCHANGED <<cfg, ceOn, cein, loc, vrfs, deadline, now>>
 
 (* the CE neighbour is configured (it needs its VRF) and its session established *)
@@ -145,10 +164,10 @@ PCeDown ==
   /\ ceOn' = FALSE /\ up' = [up EXCEPT !["CE"] = FALSE] /\ cein' = {}
   /\ UNCHANGED <<cfg, nin, loc, vrfs, mem, wait, eor, deadline, now>>
 
-PVAnn(r) == /\ up["N2"]
+PVAnn(r) == /\ r.src \in PEs /\ up[r.src]
             /\ nin' = {q \in nin : KeyOfN(q) # KeyOfN(r)} \cup {r}
             /\ UNCHANGED <<cfg, up, ceOn, cein, loc, vrfs, mem, wait, eor, deadline, now>>
-PVWd(r)  == /\ up["N2"]
+PVWd(r)  == /\ r.src \in PEs /\ up[r.src]
             /\ nin' = {q \in nin : KeyOfN(q) # KeyOfN(r)}
             /\ UNCHANGED <<cfg, up, ceOn, cein, loc, vrfs, mem, wait, eor, deadline, now>>
 
